@@ -52,7 +52,7 @@ CopyWs(wb) == IF wb.wslen = 0 THEN wb
               ELSE LET n == Min2(wb.wslen, wb.width)
                        w1 == [wb EXCEPT !.line = @ \o Spaces(n, wb.spacetag)]
                        w2 == IF n = wb.width THEN FlushLine(w1) ELSE w1
-                   IN IF wb.width = 0 THEN [wb EXCEPT !.wslen = 0]    \* (cannot happen: width >= 1)
+                   IN IF wb.width = 0 THEN [wb EXCEPT !.wslen = 0]    \* nothing fits in a zero-width block
                       ELSE CopyWs([w2 EXCEPT !.wslen = @ - n])
 
 FlushWord(wb, m) ==
@@ -91,6 +91,9 @@ AddChar(a, c, m, main, cont) ==
        ELSE IF Preserve(m)
        THEN IF c[1] = NL
             THEN [wb |-> [ForceFlushLine(wb1) EXCEPT !.wslen = 0, !.hasst = FALSE, !.prew = FALSE], tag |-> main]
+            ELSE IF c[1] = TAB /\ wb1.width = 0          \* no column for even one space: the loop could not end
+                 THEN IF ~wb1.ovf THEN [a EXCEPT !.wb = [wb1 EXCEPT !.err = TRUE]]
+                      ELSE [a EXCEPT !.wb = ForceFlushLine([wb1 EXCEPT !.line = Append(@, <<32, 1, a.tag>>)])]
             ELSE IF c[1] = TAB THEN [a EXCEPT !.wb = TabLoop(wb1, SumW(wb1.line) + wb1.wslen, FALSE, a.tag)]
             ELSE IF CW(c) < 0 THEN [a EXCEPT !.wb = wb1]
             ELSE IF SumW(wb1.line) + wb1.wslen + CW(c) > wb1.width
